@@ -1,5 +1,6 @@
 """R-PANIC-INV / R-ARITH: inventory of potentially panicking constructs."""
 from . import cfg, common, facts
+from .report import Pool
 
 PANIC_FNS = (
     "core::panicking::panic", "core::panicking::panic_fmt", "core::panicking::panic_display",
@@ -145,7 +146,17 @@ def upper_bound(fn, defs, op, depth):
     ty = fn.local_ty(pl["l"])
     tb = UMAX.get(ty)
     ds = defs.get(pl["l"], [])
-    if len(ds) != 1 or ds[0][1] == "term":
+    if len(ds) == 1 and ds[0][1] == "term":
+        # `usize::from(x)` / `u32::from(x)`: lossless widening (core::convert::num) keeps the argument's bound
+        t = ds[0][2]
+        c = t.get("callee", {})
+        if t.get("k") == "call" and c.get("method") == "from" and len(t["args"]) == 1 \
+                and "convert::num" in (c.get("resolved_dp") or ""):
+            b = upper_bound(fn, defs, t["args"][0], depth + 1)
+            if b is not None:
+                return min(b, tb) if tb is not None else b
+        return tb
+    if len(ds) != 1:
         return tb
     rv = ds[0][2]
     b = None
@@ -209,21 +220,24 @@ def bounds_discharged(fn, item, defs=None, idom=None):
         if len(ds) != 1:
             continue
         rv = ds[0][2]
-        if rv["k"] != "bin" or rv["op"] not in ("Lt", "Gt"):
+        if rv["k"] != "bin" or rv["op"] not in ("Lt", "Gt", "Ge", "Le"):
             continue
-        a, b2 = (rv["a"], rv["b"]) if rv["op"] == "Lt" else (rv["b"], rv["a"])
+        # i < len / len > i hold on the true edge; i >= len / len <= i are refuted on the false edge
+        a, b2 = (rv["a"], rv["b"]) if rv["op"] in ("Lt", "Ge") else (rv["b"], rv["a"])
         if _trace_copy(fn, defs, a, bi) != ikey or _len_of(fn, defs, b2) != skey:
             continue
         true_t = tt["otherwise"]
         for v, tg in tt["targets"]:
             if v == 1:
                 true_t = tg
-        false_t = None
+        false_t = tt["otherwise"]
         for v, tg in tt["targets"]:
             if v == 0:
                 false_t = tg
         if true_t == false_t:
             continue
+        if rv["op"] in ("Ge", "Le"):
+            true_t = false_t       # the edge on which index < len is known
         if not cfg.dominates(idom, true_t, item["block"]):
             continue
         # no store to the index place / no &mut escape of its base between guard and use
@@ -245,6 +259,78 @@ def bounds_discharged(fn, item, defs=None, idom=None):
     return False, None
 
 
+def _divisor_nonzero_by_callers(crate, fn, it):
+    """The divisor is a parameter of a private function and every call site in the crate passes a non-zero
+    constant or the caller's own `radix` parameter (R-RADIX-CONST: always 2, 8, 10 or 16).  Returns a reason."""
+    d = _divisor_operand(fn, it)
+    if d is None or fn.is_pub:
+        return None
+    o = common.origin(fn, common.defs_of(fn), d)
+    if o["k"] != "param":
+        return None
+    k = o["l"]
+    sites = []
+    for g, bi, t in common.iter_calls(crate):
+        c = t["callee"]
+        if (c.get("resolved") or c.get("path")) != fn.path:
+            continue
+        if len(t["args"]) < k:
+            return None
+        a = t["args"][k - 1]
+        v = common.const_int(a)
+        if v is not None and v != 0:
+            sites.append("%d" % v)
+            continue
+        own = g.param_index("radix")
+        l = common.place_local(a)
+        if own is not None and l is not None and common.copy_of_param(g, l, own):
+            sites.append("radix of %s" % g.path.rsplit("::", 1)[1])
+            continue
+        return None
+    if not sites:
+        return None
+    return "divisor is parameter %d, passed as %s at its %d call sites" % (k, sorted(set(sites)), len(sites))
+
+
+def _divisor_operand(fn, it):
+    t = it["term"]
+    cond = t.get("cond", {})
+    if cond.get("c") not in ("copy", "move") or cond["pl"]["p"]:
+        return None
+    for s in reversed(fn.blocks[it["block"]]["stmts"]):
+        if s["k"] == "assign" and not s["place"]["p"] and s["place"]["l"] == cond["pl"]["l"]:
+            rv = s["rv"]
+            if rv["k"] == "bin" and rv["op"] == "Eq" and common.const_int(rv["b"]) == 0:
+                return rv["a"]
+            return None
+    return None
+
+
+def _divisor_const(fn, it):
+    """The assert's operand is the *dividend*; the divisor is the operand compared with 0 in the assert's
+    condition (`_c = Eq(divisor, const 0); assert(!_c)`).  Returns its constant value or None."""
+    t = it["term"]
+    cond = t.get("cond", {})
+    if cond.get("c") not in ("copy", "move") or cond["pl"]["p"]:
+        return None
+    for s in reversed(fn.blocks[it["block"]]["stmts"]):
+        if s["k"] == "assign" and not s["place"]["p"] and s["place"]["l"] == cond["pl"]["l"]:
+            rv = s["rv"]
+            if rv["k"] == "bin" and rv["op"] == "Eq" and common.const_int(rv["b"]) == 0:
+                d = rv["a"]
+                c = common.const_int(d)
+                if c is not None:
+                    return c
+                # one copy step
+                if d.get("c") in ("copy", "move") and not d["pl"]["p"]:
+                    for s2 in fn.blocks[it["block"]]["stmts"]:
+                        if s2["k"] == "assign" and not s2["place"]["p"] and s2["place"]["l"] == d["pl"]["l"] \
+                                and s2["rv"]["k"] == "use":
+                            return common.const_int(s2["rv"]["op"])
+            return None
+    return None
+
+
 def scan(rule, crate, fn_pred, table, kinds, label):
     """Compare the inventory of `kinds` against the reviewed table.
 
@@ -252,6 +338,8 @@ def scan(rule, crate, fn_pred, table, kinds, label):
     Excess over the table is a violation; a deficit is fine."""
     n_fns = 0
     n_items = 0
+    pool = Pool(table, getattr(crate, "config", "default"), {f.path for f in crate.fns if fn_pred(f)},
+                {f.path for f in crate.fns})
     for fn in crate.fns:
         if not fn_pred(fn):
             continue
@@ -261,7 +349,6 @@ def scan(rule, crate, fn_pred, table, kinds, label):
             continue
         defs = None
         idom = None
-        counts = {}
         for it in inv:
             n_items += 1
             if it["kind"] == "bounds":
@@ -273,26 +360,33 @@ def scan(rule, crate, fn_pred, table, kinds, label):
                     rule.ok("%s: bounds check discharged (%s)" % (fn.path, why), fn, it["line"])
                     continue
             if it["kind"] == "div":
-                dv = common.const_int(it["term"]["ops"][0]) if it["term"].get("ops") else None
+                dv = _divisor_const(fn, it)
                 if dv is not None and dv != 0:
                     rule.ok("%s: division by the non-zero constant %d" % (fn.path, dv), fn, it["line"])
+                    continue
+                why = _divisor_nonzero_by_callers(crate, fn, it)
+                if why:
+                    rule.ok("%s: %s" % (fn.path, why), fn, it["line"])
                     continue
             if it["kind"] == "index" and it["detail"].endswith("[std::ops::RangeFull]"):
                 rule.ok("%s: `[..]` (RangeFull) never panics" % fn.path, fn, it["line"])
                 continue
-            key = "%s | %s:%s" % (fn.path, it["kind"], it["detail"])
-            counts.setdefault(key, []).append(it)
-        for key, items in counts.items():
-            ent = table.get(key)
-            allowed = ent["count"] if ent else 0
-            for i, it in enumerate(items):
-                if i < allowed:
-                    rule.ok("%s (reviewed: %s)" % (key, ent["reason"]), fn, it["line"])
-                else:
-                    rule.violation(
-                        "%s::%s" % (crate.name, fn.path), "%s:%s" % (it["kind"], it["detail"]),
-                        "%s: potentially panicking construct `%s %s` at line %s is not in the reviewed inventory "
-                        "(%d allowed for this function, %d found); %s" %
-                        (fn.path, it["kind"], it["detail"], it["line"], allowed, len(items), label),
-                        fn.loc(it["line"]))
+            detail = "%s:%s" % (it["kind"], it["detail"])
+
+            def on_ok(ent, moved, fn=fn, it=it, detail=detail):
+                rule.ok("%s | %s (reviewed%s: %s)" % (fn.path, detail, " for %s, moved" % moved if moved else "", ent["reason"]),
+                        fn, it["line"])
+
+            def on_bad(fn=fn, it=it, detail=detail):
+                rule.violation(
+                    "%s::%s" % (crate.name, fn.path), detail,
+                    "%s: potentially panicking construct `%s %s` at line %s is not in the reviewed inventory and no "
+                    "reviewed construct of the same kind disappeared elsewhere; %s" %
+                    (fn.path, it["kind"], it["detail"], it["line"], label),
+                    fn.loc(it["line"]))
+
+            pool.site(fn.path, detail, on_ok, on_bad)
+    pool.settle()
+    if pool.unused():
+        rule.note("reviewed constructs no longer present: %s" % sorted(pool.unused().items()))
     return n_fns, n_items
